@@ -159,6 +159,9 @@ func (h *c01Hist) observe(nd *wNode) {
 				lock = fmt.Sprintf("(Some %d)", h.id(lb.Hash()))
 			}
 		}
+		if idx >= len(h.events) {
+			continue // the vote was not emitted: the history is validated only up to an unresolvable report (h.outside)
+		}
 		h.events[idx] = strings.Replace(h.events[idx], "@LOCK@", lock, 1)
 	}
 	if nd != nil && !nd.byz && !h.isByzID(nd.id.ReplicaID) {
